@@ -280,3 +280,41 @@ func staleOrderOnRecreatedModel(a *authzWorld) {
 
 var _ = fmt.Sprint
 var _ = actors.DefaultGas
+
+// revokedBeforeCompletion: a read-write grantee's update is in flight when the owner revokes the grant; the
+// provider then reports the grantee's order as stored.
+func revokedBeforeCompletion(a *authzWorld) {
+	w := a.w
+	for _, o := range []*world.Owner{a.owner, a.sowner} {
+		did := a.newModel(o, 1)
+		if did == "" {
+			continue
+		}
+		md := w.Cur.Metas[did]
+		_, oid := w.Store(world.StoreReq{Owner: a.rw.Id, Gateway: a.gw, DataId: did, CommitId: md.Commit + "|" + a.nextCommit(did), Duration: 3600, Replica: 1, Timeout: 2000, Size: 1000, Alias: md.Alias})
+		w.EndBlock()
+		if oid == 0 {
+			continue
+		}
+		// the owner withdraws the grant while the grantee's order is still waiting for its provider
+		w.UpdatePermission(o.Id, nil, a.gw.Acct, "", did, []string{a.ro.Id.DID()}, []string{}, nil)
+		w.EndBlock()
+		if od, ok := w.Cur.Orders[oid]; ok {
+			for _, sid := range od.Shards {
+				if sh, ok := w.Cur.Shards[sid]; ok && sh.Status == ShardWaiting {
+					if p := w.ProviderByAddr(sh.Sp); p != nil {
+						meta := map[string]interface{}{"c09.target": did, "c09.authorized": false, "c09.case": "complete-order-of-revoked-grantee", "c09.others": a.others(did)}
+						w.Deliver("complete", p.Acct, meta, saotypes.NewMsgComplete(p.Acct.Addr.String(), oid, world.Cid1, sh.Size_, sh.Sp))
+					}
+				}
+			}
+		}
+		w.EndBlock()
+		// leave the model usable for later probes
+		if od, ok := w.Cur.Orders[oid]; ok && od.Status != OrderCompleted {
+			w.Cancel(a.gw.Acct, oid, a.gw.Acct.Addr.String())
+		}
+		w.UpdatePermission(o.Id, nil, a.gw.Acct, "", did, []string{a.ro.Id.DID()}, []string{a.rw.Id.DID()}, nil)
+		w.EndBlock()
+	}
+}
